@@ -6,9 +6,8 @@
    the code).  Corners are compared within 1e-9 of the axis scale; the accept/reject decisions
    that hinge on the ABSOLUTE alignment tolerance are evaluated with tolerance -/+ delta
    (delta = 2^-49 * largest coordinate, a bound for the float rounding of the remainder
-   computation) and compared only when both evaluations agree; range selections whose bounds
-   fall within delta of a subregion face are not compared (skipped near threshold). *)
-From DF Require Import Prelude Constants_gen Region Mesh Subregions.
+   computation) and compared only when both evaluations agree. *)
+From DF Require Export Prelude Constants_gen Region Mesh Subregions.
 Open Scope Q_scope.
 
 Definition rel_tol : Q := 1 # 1000000000.            (* 1e-9 *)
@@ -87,8 +86,6 @@ Definition check_res (exact : bool) (lo hi : res mesh) (obs : option mesh_obs) :
   | _, _, _ => false
   end.
 
-Definition near (d x y : Q) : bool := Qle_bool (Qabs (x - y)) d && negb (Qeq_bool d 0).
-
 Definition op_coords (o : top) : list Q :=
   match o with
   | TTranslate v => v
@@ -142,16 +139,8 @@ Definition check_C14 (c : c14_case) : bool :=
       match build_state s with
       | OK m =>
           let d := delta exact (reg_coords (reg m)) in
-          match sel_bounds m a x1 x2 with
-          | OK (lo, hi) =>
-              if existsb (fun nr : string * region =>
-                            near d hi (nth a (pmin (snd nr)) 0) || near d lo (nth a (pmax (snd nr)) 0))
-                         (subs m)
-              then true   (* a selection bound within rounding of a subregion face: not compared *)
-              else check_res exact (sel_range_tol (align_tol - d) m a x1 x2)
-                                   (sel_range_tol (align_tol + d) m a x1 x2) obs
-          | Err _ => match obs with None => true | Some _ => false end
-          end
+          check_res exact (sel_range_tol (align_tol - d) m a x1 x2)
+                          (sel_range_tol (align_tol + d) m a x1 x2) obs
       | Err _ => false
       end
   | CNamed exact s name obs =>
